@@ -2,7 +2,7 @@ package main
 
 func init() {
 	register(&Property{
-		ID: "C13",
+		ID:          "C13",
 		Explanation: "Structural slice: (R13.1) NumpyMultiDataset.Append guards the byte-wise merge of another symbol's columns with a comparison that involves the element TYPES, not only the names.",
 		NotCovered:  "row equality between the multi-symbol and the single-symbol query, duplicate/unknown column semantics.",
 		Rules: []Rule{
@@ -14,7 +14,7 @@ func init() {
 		},
 	})
 	register(&Property{
-		ID: "C14",
+		ID:          "C14",
 		Explanation: "Structural necessary conditions of schema validation on every path of WriteCSM: (R14.1) WriteRecords is reachable only behind a result-checked GetMissingAndTypeCoercionColumns, the `no column missing` edge and the `same column count` edge, and a failing coercion aborts; (R14.2) no validation-error return is reachable after records were already queued (known finding: one loop validates and queues); (R14.3) the coercion switch has a case for every numeric element type of attributeMap and the conversion groups cover every numeric kind.",
 		NotCovered:  "the set algebra of GetMissingAndTypeCoercionColumns on every schema pair; numeric results of conversions.",
 		Rules: []Rule{
@@ -24,7 +24,7 @@ func init() {
 		},
 	})
 	register(&Property{
-		ID: "C15",
+		ID:          "C15",
 		Explanation: "Structural conditions of header fidelity: (R15.1) sizeof(Header) == Headersize, headerPart1Bytes == offsetof(ElementNames), array dimensions == their constants (types.Sizes); (R15.2) every header field written by Header.Load is read by TimeBucketInfo.load and vice versa; (R15.3) bucket creation is dominated by a result-checked validation of the header's limits (name ≤ 32 bytes, ≤ 1024 elements) so nothing is silently truncated; (R8.1) no slot index maps into the header.",
 		NotCovered:  "faithfulness of every field value, description strings, timeframe round trip.",
 		Rules: []Rule{
@@ -35,7 +35,7 @@ func init() {
 		},
 	})
 	register(&Property{
-		ID: "C16",
+		ID:          "C16",
 		Explanation: "Structural necessary conditions of root confinement: (R16.1) every directory/file creation in AddTimeBucket — the single choke point of Create and WriteCSM — is dominated by a result-checked validator that rejects the key items \"\", \".\", \"..\" and items containing a path separator; (R16.2) deletion removes only the pathToItemName of catalog nodes found by walking the catalog, and that field is set only while loading from disk; (R16.3) no other file-mutating primitive exists outside the frozen gate table.",
 		NotCovered:  "symlinks already present under the root, unusual characters that are legal component names, read-side path construction.",
 		Rules: []Rule{
@@ -45,7 +45,7 @@ func init() {
 		},
 	})
 	register(&Property{
-		ID: "C17",
+		ID:          "C17",
 		Explanation: "Decides the locking discipline consistency rests on (not the equality catalog == disk): (R17.1) every access to Directory.subDirs/datafile/category/categorySet/itemName in package catalog holds a mutex of the same object on every path (write lock for writes), with a table of justified caller-holds exceptions that are themselves verified; (R17.2) every tree-changing step of AddTimeBucket / GetSubDirectoryAndAddFile / RemoveTimeBucket runs under the root's write lock; (R17.4) a year file is registered iff it was created.",
 		NotCovered:  "equality of listings with disk after arbitrary histories; restart equivalence.",
 		Rules: []Rule{
@@ -54,7 +54,7 @@ func init() {
 		},
 	})
 	register(&Property{
-		ID: "C18",
+		ID:          "C18",
 		Explanation: "Decides race-freedom clauses for a frozen list of shared state only: (R18.1) haveWALWriter, shutdownPending, frontend.Queryable, TimeBucketInfo.variableRecordLength are atomic types or accessed only through sync/atomic; (R5.1) the WAL structures are reachable only from the WAL goroutine / inline flush; (R3.1) variable-length data is append-only until the index moves (known finding) and the index is written after the data; (R17.1/R17.2) catalog locking; (R18.5) a fixed slot is written by one positional write of index+payload.",
 		NotCovered:  "absence of all data races (only the listed shared state), torn reads inside one WriteAt, goroutine scheduling.",
 		Rules: []Rule{
@@ -68,18 +68,19 @@ func init() {
 		},
 	})
 	register(&Property{
-		ID: "C19",
-		Explanation: "Thin: row-selection semantics (bound arithmetic, tightening, Epoch units) are value-level and NOT decided. Decided: (R19.1) the WHERE post-filter has a case for every numeric column type a bucket can produce (known findings); (R19.2) errors of AddComparison are not dropped (known findings); (R19.3) the scan-level LIMIT push-down is behind a test of the statement's predicates/functions; (R19.4) BETWEEN adds (GT, LT) and NOT BETWEEN (LTE, GTE) on the lower/upper bound.",
+		ID:          "C19",
+		Explanation: "Thin: row-selection semantics (bound arithmetic, tightening, Epoch units) are value-level and NOT decided. Decided: (R19.1) the WHERE post-filter has a case for every numeric column type a bucket can produce (known findings); (R19.2) errors of AddComparison are not dropped (known findings); (R19.3) the scan-level LIMIT is pushed down only on the edge where the statement has no predicates at all (the post-filter can only remove rows after the cut); (R19.5) float32 columns are compared in float32 (the literal is rounded to the column type, the element is never widened); (R19.4) BETWEEN adds (GT, LT) and NOT BETWEEN (LTE, GTE) on the lower/upper bound.",
 		NotCovered:  "the inverted tightening in AddComparison, the ±1 push-down adjustment, integer-Epoch handling.",
 		Rules: []Rule{
 			{"R19.1", "post-filter handles every numeric column type", rulePostFilterTotal},
 			{"R19.2", "a rejected comparison is not silently dropped", ruleComparisonErrors},
 			{"R19.3", "push-down only narrows", rulePushdownGuarded},
 			{"R19.4", "BETWEEN maps to one lower and one upper comparison", ruleBetweenMapping},
+			{"R19.5", "float32 columns are compared in their own precision", ruleFilterComparesInColumnPrecision},
 		},
 	})
 	register(&Property{
-		ID: "C20",
+		ID:          "C20",
 		Explanation: "Thin: (R20.1) in Materialize nothing filters/projects after the final RestrictLength and the WHERE filter never runs after projection; the scan-level limit is guarded (R19.3); (R20.2) errors of RestrictLength/RestrictViaBitmap/Project/Rename are not dropped (known findings); (R20.3) INSERT INTO writes the SelectRelation result, projected onto the target's columns, and returns WriteCSM's error.",
 		NotCovered:  "the relational equalities themselves.",
 		Rules: []Rule{
@@ -88,7 +89,7 @@ func init() {
 		},
 	})
 	register(&Property{
-		ID: "C23",
+		ID:          "C23",
 		Explanation: "Thin: (R23.1) uda.ColumnToFloat32/64 convert every numeric column slice type a bucket can produce and reject anything else with an error (a missing case returns (nil, nil) and min/max index element 0); (R23.2) every aggregate registered in NewDefaultAggRunner implements uda.AggInterface and its New returns a fresh accumulator; (R23.3) min/max read element 0 only behind the non-empty edge.",
 		NotCovered:  "arithmetic results, gap threshold semantics.",
 		Rules: []Rule{
@@ -99,7 +100,7 @@ func init() {
 		},
 	})
 	register(&Property{
-		ID: "C24",
+		ID:          "C24",
 		Explanation: "Thin: (R24.1) ColumnSeriesUnion's contract (right operand wins, verified from its body) is used in the trigger with the series built from the just-written records on the RIGHT and the cached series on the left; (R24.3) the error of the aggregate write is logged or propagated, not dropped.",
 		NotCovered:  "cache validity for writes spanning an earlier window; OHLCV arithmetic.",
 		Rules: []Rule{
@@ -108,7 +109,7 @@ func init() {
 		},
 	})
 	register(&Property{
-		ID: "C25",
+		ID:          "C25",
 		Explanation: "Structural necessary conditions of replica convergence: (R25.1) the record type passed to the replica's write derives from the write set of the current loop iteration; (R10.3) every caller of GetTimeFromTicks consumes seconds and nanoseconds; (R25.3) ReplicationSender.Send is dominated by the result-checked WAL fsync and sends the same serialized TG that was logged; (R25.4) the replica is wired with executor.ParseTGData and rebuilds times with io.IndexToTime.",
 		NotCovered:  "equality of query results; ordering of TGs on the replica.",
 		Rules: []Rule{
@@ -119,7 +120,7 @@ func init() {
 		},
 	})
 	register(&Property{
-		ID: "C26",
+		ID:          "C26",
 		Explanation: "Decides the safety clauses only: (R26.1) every access to GRPCReplicationServer.StreamChannels holds a mutex of the server on every path (known findings: there is no mutex at all — concurrent map write/iteration is a fatal runtime error); (R26.2) a channel published in that map is closed only under the lock that excludes the sender (known finding); (R26.3) observation on the blocking fan-out send.",
 		NotCovered:  "delivery completeness and order per replica; whether the blocking send is reachable.",
 		Rules: []Rule{
@@ -128,7 +129,7 @@ func init() {
 		},
 	})
 	register(&Property{
-		ID: "C27",
+		ID:          "C27",
 		Explanation: "Table agreement decided exhaustively over the finite type tables: (R27.1) typeMap's wire strings are pairwise distinct and typeStrMap is its inverse; (R27.2) every wire type has a decode case in ConvertByteSliceInto whose Go element type has the size and reflect kind attributeMap lists for it (the kind is what maps back to the enum); (R27.3) attributeMap's kinds are pairwise distinct (kindMap is filled by map iteration); (R13.1) merge guard compares types.",
 		NotCovered:  "msgpack library behaviour, value equality.",
 		Rules: []Rule{
@@ -137,7 +138,7 @@ func init() {
 		},
 	})
 	register(&Property{
-		ID: "C28",
+		ID:          "C28",
 		Explanation: "Serializer/parser agreement decided over the finite field layout: (R28.1) the sequence of fixed byte runs and variable parts emitted per command by serializeTG equals the sequence of cursor increments of ParseTGData, every decode primitive is given a slice of exactly its width, and the same holds for DataShape/DSV, transaction-info and status records and the TG framing constants; (R28.2) no length is narrowed without a bound or a listed justification (known findings: uint8 widths of data shapes); (R28.4) OffsetIndexBuffer accessors match offset:8 index:8 payload.",
 		NotCovered:  "equality of decoded content for every command.",
 		Rules: []Rule{
@@ -149,25 +150,27 @@ func init() {
 		},
 	})
 	register(&Property{
-		ID: "C29",
-		Explanation: "Row layout agreement decided over the finite type tables: (R29.1) GetColumn has a case for every element type with a non-zero size, the helper it selects returns elements of exactly that size and decodes that many bytes per row, offsets advance by Type.Size(); (R29.2) every serialized row starts with the int64 Epoch, padding is appended once per row after the last column, record lengths use the same AlignedSize on both sides.",
+		ID:          "C29",
+		Explanation: "Row layout agreement decided over the finite type tables: (R29.1) GetColumn has a case for every element type with a non-zero size, the helper it selects returns elements of exactly that size and decodes that many bytes per row, offsets advance by Type.Size(); (R29.2) every serialized row starts with the int64 Epoch, padding is appended once per row after the last column, record lengths use the same AlignedSize on both sides; (R29.4) in the row→column helpers (and the helpers they hand their parameters to) the column offset and the record length reach the buffer only through additions — a division, shift or mask of the offset needs a test on the path that this very value is a multiple.",
 		NotCovered:  "value equality, float bit patterns.",
 		Rules: []Rule{
 			{"R29.1", "column extraction is total and width-correct", ruleColumnExtraction},
 			{"R29.2", "writer and reader agree on the row layout; coercion errors", ruleRowLayoutAgreement},
+			{"R29.4", "column offsets and strides reach the row buffer exactly (no division/shift/mask without an alignment test)", ruleOffsetsExact},
 		},
 	})
 	register(&Property{
-		ID: "C30",
-		Explanation: "Thin: the arithmetic bijection is NOT decided. Decided: (R8.1) the slot index is ≥ 1 on every path, i.e. every slot lies in the data area (known finding: 1D on January 1); (R30.2) every year origin used by the slot mapping is computed in the configured zone (known finding: the ticks encoder uses time.UTC).",
-		NotCovered:  "distinct intervals ↔ distinct slots, DST, leap years, upper bound of the slot range.",
+		ID:          "C30",
+		Explanation: "Thin: the arithmetic bijection is NOT decided. Decided: (R8.1) the slot index is ≥ 1 on every path, i.e. every slot lies in the data area (known finding: 1D on January 1); (R30.2) every year origin used by the slot mapping is computed in the configured zone (known finding: the ticks encoder uses time.UTC); (R30.3) outside the daily branch TimeToIndex/IndexToTime compute the position in the year as an absolute duration (Sub/Add), never from wall-clock accessors, which are not injective across daylight-saving transitions.",
+		NotCovered:  "distinct intervals ↔ distinct slots as arithmetic, leap years, upper bound of the slot range.",
 		Rules: []Rule{
 			{"R8.1", "slot index ≥ 1", ruleSlotIndexPositive},
 			{"R30.2", "one time-zone source", ruleOneTimezoneSource},
+			{"R30.3", "intraday slots are a function of absolute time (no wall-clock fields)", ruleIndexFromAbsoluteTime},
 		},
 	})
 	register(&Property{
-		ID: "C32",
+		ID:          "C32",
 		Explanation: "Decides the dispatch plumbing on every path: (R32.1) every element of the slice handed to writePrimary is passed unconditionally to AppendRecord with its index+payload, and DispatchRecords is deferred before any return of the flush; (R32.2) DispatchRecords resets the pending map on every exit and only the flush feeds/dispatches; (R32.3) a trigger goroutine is started only on the Match == true edge, for every matcher, after triggerWg.Add; (R32.4) the trigger pattern is matched anchored and escaped (known finding).",
 		NotCovered:  "exactly-once under concurrent writers; payload equality.",
 		Rules: []Rule{
@@ -175,7 +178,7 @@ func init() {
 		},
 	})
 	register(&Property{
-		ID: "C33",
+		ID:          "C33",
 		Explanation: "Error-discipline decided on every path of the CSV import: (R33.1) after csv.Reader.Read fails, a successful return is reachable only through an io.EOF test; (R33.2) when the time columns cannot be built convertCSVtoCSM returns a non-nil error; (R33.3) strconv/time parse errors in the loader are tested; (R33.4) errors of chunk conversion and chunk writing are propagated.",
 		NotCovered:  "parsed values, time-zone conversion results.",
 		Rules: []Rule{
